@@ -11,7 +11,7 @@ def _i1_targets():
     return [
         ('Heading', bt.Heading.pattern, 'Heading', False),
         ('ThematicBreak', bt.ThematicBreak.pattern, 'ThematicBreak', False),
-        ('CodeFence', bt.CodeFence.pattern, 'CodeFence', False),
+        ('CodeFence', bt.CodeFence.pattern, 'CodeFenceOpen', False),   # the back-tick-in-info-string rule is code: lemma I2
         ('List', bt.List.pattern, 'List', False),
         ('ListItem', bt.ListItem.pattern, 'ListItem', False),
         ('SetextUnderline', bt.Paragraph.setext_pattern, 'SetextUnderline', False),
@@ -68,3 +68,154 @@ def i1_block_starts():
         S.expect_unsat(name + ':impl-within-spec', *rx.included(impl, spec, rx.MD_LINE))
         S.expect_unsat(name + ':spec-within-impl', *rx.included(spec, impl, rx.MD_LINE), info_only=True)
     return S.result()
+
+
+# ------------------------------------------------------------------------------------- I2 (E1)
+
+from vfy.lemmas.common import S, cp_md, all_ok, all_in, by, fixed   # noqa: E402
+
+
+def no_nl(k, *cps):
+    for c in cps[:k]:
+        if c == 10:
+            return False
+    return True
+
+
+def spec_indented(line):
+    """spec 4.4: four or more columns of leading white space (tabs to the next multiple of 4) and the line is not blank"""
+    col = 0
+    for ch in line:
+        if ch == ' ':
+            col += 1
+        elif ch == '\t':
+            col += 4 - col % 4
+        else:
+            return col >= 4 and ch != '\n'
+        if col >= 4:
+            pass
+    return False
+
+
+@lemma('I2.coded-starts', 'C14', quick=[{'k': k} for k in (1, 2, 3)], thorough=[{'k': k} for k in (1, 2, 3, 4, 5)], timeout=900, per_path=60,
+       covers=['block_token.py:Quote.start', 'block_token.py:BlockCode.start', 'block_token.py:CodeFence.start', 'block_token.py:Table.start',
+               'block_token.py:Footnote.start', 'block_token.py:ThematicBreak.start', 'block_token.py:Heading.start', 'block_token.py:List.start'],
+       note='a line of k code points over Σmd (+ newline): each start() that is written as code (not only a pattern) accepts the line only if the CommonMark grammar does; '
+            'a blank line is accepted by none of the starts that can interrupt a paragraph')
+def i2_coded_starts(c1: int, c2: int, c3: int, c4: int, c5: int) -> bool:
+    """
+    pre: all_ok(cp_md, P('k'), c1, c2, c3, c4, c5) and no_nl(P('k'), c1, c2, c3, c4, c5)
+    post: _
+    """
+    import mistletoe.block_token as bt
+    from vfy.ref.grammar import COMPILED
+    line = S(P('k'), c1, c2, c3, c4, c5) + '\n'
+    if bt.Quote.start(line) and COMPILED['Quote'].match(line) is None:
+        return False
+    if bool(COMPILED['Quote'].match(line)) != bool(bt.Quote.start(line)):
+        return False
+    if bt.CodeFence.start(line) and COMPILED['CodeFence'].match(line) is None:
+        return False
+    if bt.BlockCode.start(line) and line.strip(' \t\n') != '' and not spec_indented(line):
+        return False
+    if bt.Table.start(line) and '|' not in line:
+        return False
+    if bt.Footnote.start(line) and '[' not in line:
+        return False
+    if line.strip(' \t\n') == '':
+        for T in (bt.Heading, bt.Quote, bt.CodeFence, bt.ThematicBreak, bt.List):
+            if T.start(line):
+                return False
+    return True
+
+
+# ------------------------------------------------------------------------------------- I3 (E1)
+
+I3_ALPH = 'a1 _*-+#>=|~^$%@[]&.()'
+I3_PUNCT = '_*-+#>=|~^$%@[]&.()'
+
+
+def inert(s):
+    """independent, spec-derived inertness predicate for a ONE-line paragraph over I3_ALPH that
+    neither starts nor ends with a space"""
+    from vfy.ref.grammar import COMPILED
+    from vfy.ref import emphasis as E
+    line = s + '\n'
+    for name in ('Heading', 'ThematicBreak', 'List', 'Quote'):
+        if COMPILED[name].match(line):
+            return False
+    # emphasis: the reference delimiter algorithm finds nothing
+    runs = []
+    i = 0
+    n = len(s)
+    while i < n:
+        c = s[i]
+        if c == '*' or c == '_':
+            j = i
+            while j < n and s[j] == c:
+                j += 1
+            before = s[i - 1] if i > 0 else ' '
+            after = s[j] if j < n else ' '
+            ws_b, ws_a = before == ' ', after == ' '
+            pu_b, pu_a = before in I3_PUNCT, after in I3_PUNCT
+            left = (not ws_a) and ((not pu_a) or ws_b or pu_b)
+            right = (not ws_b) and ((not pu_b) or ws_a or pu_a)
+            if c == '*':
+                op, cl = left, right
+            else:
+                op, cl = (left and ((not right) or pu_b)), (right and ((not left) or pu_a))
+            runs.append((c, i, j, op, cl))
+            i = j
+        else:
+            i += 1
+    if E.process(runs):
+        return False
+    # strikethrough needs ~~x~~ ; links need '](' ; both impossible to complete here only if absent
+    if '~~' in s and s.count('~~') >= 2:
+        return False
+    if '](' in s or '][' in s:
+        return False
+    return True
+
+
+def _i3_parts(k):
+    return by('c1', list(I3_ALPH.replace(' ', '')), [{'k': k}])
+
+
+@lemma('I3.inline', 'C14', quick=[{'k': 1}] + by('c1', list('a*_-#>[&1='), [{'k': 2}]),
+       thorough=[{'k': 1}] + _i3_parts(2) + [dict(p, timeout=5000) for p in _i3_parts(3)], timeout=900, per_path=120,
+       covers=['block_token.py:Document.__init__', 'block_token.py:Paragraph.__init__', 'span_tokenizer.py:tokenize',
+               'core_tokens.py:find_core_tokens', 'html_renderer.py:HtmlRenderer.render_paragraph', 'html_renderer.py:HtmlRenderer.render_raw_text'],
+       note="one-line paragraphs of k characters over the property's inert-candidate characters (a 1 space _ * - + # > = | ~ ^ $ % @ [ ] & . ( )), filtered by the independent inertness predicate: rendered as exactly that text, HTML-escaped, in a single <p>")
+def i3_inline(c1: int, c2: int, c3: int) -> bool:
+    """
+    pre: all_in(I3_ALPH, P('k'), c1, c2, c3) and fixed(c1, 'c1')
+    pre: c1 != 32 and (P('k') < 2 or [c1, c2, c3][P('k') - 1] != 32)
+    pre: inert(S(P('k'), c1, c2, c3))
+    post: _
+    """
+    import html
+    import mistletoe
+    s = S(P('k'), c1, c2, c3)
+    return mistletoe.markdown(s) == '<p>' + html.escape(s, quote=False) + '</p>\n'
+
+
+def witness_empty_list_marker():
+    """(fixed) \\d{0,9} in List.pattern / ListItem.pattern made '. x' and ') x' bullet-less list items"""
+    import mistletoe
+    out = mistletoe.markdown('. x\n') + mistletoe.markdown(') x\n')
+    return '<li>' in out, "markdown('. x') + markdown(') x') = %r" % out
+
+
+def witness_mixed_setext():
+    """(fixed) (=|-)+ accepted a mixed underline: 'a\\n=-=' became a heading"""
+    import mistletoe
+    out = mistletoe.markdown('a\n=-=\n')
+    return '<h' in out, "markdown('a\\n=-=') = %r" % out
+
+
+def witness_unicode_digit_marker():
+    """(fixed) \\d in the list patterns matched every Unicode decimal digit: '٣. foo' became an ordered list"""
+    import mistletoe
+    out = mistletoe.markdown('٣. foo\n')
+    return '<ol' in out, "markdown('\\u0663. foo') = %r" % out
